@@ -21,47 +21,47 @@ type MInner struct {
 }
 
 type MTarget struct {
-	I     int               `plenc:"1"`
-	S     string            `plenc:"2"`
-	F     float64           `plenc:"3"`
-	Bo    bool              `plenc:"4"`
-	Bs    []byte            `plenc:"5"`
-	T     time.Time         `plenc:"6"`
-	P     *int              `plenc:"7"`
-	PS    *MInner           `plenc:"8"`
-	In    MInner            `plenc:"9"`
-	Is    []int             `plenc:"10"`
-	Ss    []string          `plenc:"11"`
-	Ins   []MInner          `plenc:"12"`
-	PIns  []*MInner         `plenc:"13"`
-	Fs    []float64         `plenc:"14"`
-	PrIns []MInner          `plenc:"15,proto"`
-	M     map[string]int    `plenc:"16"`
-	MS    map[string]string `plenc:"17"`
-	MK    map[KeyS]int      `plenc:"18"`
-	MP    map[string]*int   `plenc:"19"`
-	NI    null.Int          `plenc:"20"`
-	NS    null.String       `plenc:"21"`
-	U8s   []uint8           `plenc:"22"`
-	Bss   [][]byte          `plenc:"23"`
-	PSl   *[]int            `plenc:"24"`
-	PIs   []*int            `plenc:"25"`
-	Bo2   []bool            `plenc:"26"`
-	NSi   null.String       `plenc:"27,intern"`
-	Si    string            `plenc:"28,intern"`
-	NT    null.Time         `plenc:"29"`
-	NB    null.Bool         `plenc:"30"`
-	NF    null.Float        `plenc:"31"`
-	Ts    []time.Time       `plenc:"32"`
-	PB    *bool             `plenc:"33"`
-	PF    *float64          `plenc:"34"`
-	PStr  *string           `plenc:"35"`
-	PT    *time.Time        `plenc:"36"`
-	PBs   []*bool           `plenc:"37"`
-	MPB   map[string]*bool  `plenc:"38"`
-	PU8   *uint8            `plenc:"39"`
-	PF32  *float32          `plenc:"40"`
-	PByt  *[]byte           `plenc:"41"`
+	I     int                `plenc:"1"`
+	S     string             `plenc:"2"`
+	F     float64            `plenc:"3"`
+	Bo    bool               `plenc:"4"`
+	Bs    []byte             `plenc:"5"`
+	T     time.Time          `plenc:"6"`
+	P     *int               `plenc:"7"`
+	PS    *MInner            `plenc:"8"`
+	In    MInner             `plenc:"9"`
+	Is    []int              `plenc:"10"`
+	Ss    []string           `plenc:"11"`
+	Ins   []MInner           `plenc:"12"`
+	PIns  []*MInner          `plenc:"13"`
+	Fs    []float64          `plenc:"14"`
+	PrIns []MInner           `plenc:"15,proto"`
+	M     map[string]int     `plenc:"16"`
+	MS    map[string]string  `plenc:"17"`
+	MK    map[KeyS]int       `plenc:"18"`
+	MP    map[string]*int    `plenc:"19"`
+	NI    null.Int           `plenc:"20"`
+	NS    null.String        `plenc:"21"`
+	U8s   []uint8            `plenc:"22"`
+	Bss   [][]byte           `plenc:"23"`
+	PSl   *[]int             `plenc:"24"`
+	PIs   []*int             `plenc:"25"`
+	Bo2   []bool             `plenc:"26"`
+	NSi   null.String        `plenc:"27,intern"`
+	Si    string             `plenc:"28,intern"`
+	NT    null.Time          `plenc:"29"`
+	NB    null.Bool          `plenc:"30"`
+	NF    null.Float         `plenc:"31"`
+	Ts    []time.Time        `plenc:"32"`
+	PB    *bool              `plenc:"33"`
+	PF    *float64           `plenc:"34"`
+	PStr  *string            `plenc:"35"`
+	PT    *time.Time         `plenc:"36"`
+	PBs   []*bool            `plenc:"37"`
+	MPB   map[string]*bool   `plenc:"38"`
+	PU8   *uint8             `plenc:"39"`
+	PF32  *float32           `plenc:"40"`
+	PByt  *[]byte            `plenc:"41"`
 	MSt   map[string]MInner  `plenc:"42"`
 	MPS   map[string]*MInner `plenc:"43"`
 	JO    map[string]any     `plenc:"44"`
